@@ -187,16 +187,6 @@ Qed.
 (* ========================================================================================== *)
 (** * 2. Physical lines *)
 
-(* what ReadLine removes from a terminated line: one "\r" in front of the "\n" *)
-Fixpoint strip_cr (x : list ascii) : list ascii :=
-  match x with
-  | [] => []
-  | c :: t => match t with
-              | [] => if Ascii.eqb c CR then [] else [c]
-              | _ => c :: strip_cr t
-              end
-  end.
-
 Lemma no_lf_cons : forall c x, no_lf (c :: x) = true -> Ascii.eqb c LF = false /\ no_lf x = true.
 Proof.
   intros c x H. unfold no_lf in *. cbn [forallb] in H. apply andb_true_iff in H. destruct H as [H1 H2].
@@ -294,4 +284,1309 @@ Proof.
     cbn [map]. rewrite trim_strip_cr. destruct (IH Hrs) as [E|[rs' [E1 E2]]].
     + left. now rewrite E.
     + right. exists (r :: rs'). split; [now rewrite E1|]. cbn [map]. now rewrite E2.
+Qed.
+
+(* ========================================================================================== *)
+(** * 3. The line machine on rendered items *)
+
+Notation cfgT := (list (list ascii * list ascii * list ascii)) (only parsing).
+
+Definition run (ls : list (list ascii)) : result cfgT :=
+  match steps init ls with
+  | Err e => Err e
+  | Ok s => match finish s with Err e => Err e | Ok s' => Ok (st_wr s') end
+  end.
+
+Lemma parse_raw_run : forall t, parse_raw t = run (map trim (phys_lines t)).
+Proof. reflexivity. Qed.
+
+Lemma steps_app : forall a b s,
+  steps s (a ++ b) = match steps s a with Ok s' => steps s' b | Err e => Err e end.
+Proof.
+  induction a as [|x a IH]; intros b s; cbn [app steps]; [reflexivity|].
+  destruct (step s x); [apply IH|reflexivity].
+Qed.
+
+(* the state between two items: nothing pending, or one complete definition waiting to be
+   written (canWrite = true); E is the configuration including the pending definition *)
+Definition Inv (s : st) (sec : list ascii) (E : cfgT) : Prop :=
+  st_sec s = sec /\
+  ((st_buf s = [] /\ map entry (st_wr s) = E) \/
+   (st_cw s = true /\ st_buf s <> [] /\
+    exists k v, split_eq (st_buf s) = Some (k, v) /\ E = entry (sec, k, v) :: map entry (st_wr s))).
+
+Lemma pre_flush : forall s sec E, Inv s sec E ->
+  exists s0, (if st_cw s then flush s else Ok s) = Ok s0 /\
+             st_sec s0 = sec /\ st_buf s0 = [] /\ map entry (st_wr s0) = E.
+Proof.
+  intros [sc bf c w] sec E [Hs H]. cbn [st_sec st_buf st_cw st_wr] in *. subst sc.
+  destruct H as [[Hb HE]|[Hc [Hb [k [v [Hsp HE]]]]]].
+  - subst bf. exists (mkSt sec [] c w). split; [|now repeat split].
+    destruct c; reflexivity.
+  - subst c. exists (mkSt sec [] true ((sec, k, v) :: w)). split; [|repeat split; now subst].
+    unfold flush. cbn [st_buf st_sec st_cw st_wr]. destruct bf; [congruence|]. now rewrite Hsp.
+Qed.
+
+Notation N sec w := (mkSt sec [] false w).
+
+Lemma step_norm : forall s sec E, Inv s sec E ->
+  exists w0, map entry w0 = E /\ forall L, step s L = step (N sec w0) L.
+Proof.
+  intros s sec E H. destruct (pre_flush _ _ _ H) as [s0 [Hp [H1 [H2 H3]]]].
+  exists (st_wr s0). split; [assumption|]. intro L. unfold step at 1. rewrite Hp.
+  rewrite H1, H2. reflexivity.
+Qed.
+
+Lemma steps_norm : forall s sec E, Inv s sec E ->
+  exists w0, map entry w0 = E /\ forall L ls, steps s (L :: ls) = steps (N sec w0) (L :: ls).
+Proof.
+  intros s sec E H. destruct (step_norm _ _ _ H) as [w0 [H1 H2]].
+  exists w0. split; [assumption|]. intros L ls. cbn [steps]. now rewrite H2.
+Qed.
+
+Lemma Inv_N : forall sec w, Inv (N sec w) sec (map entry w).
+Proof. intros. split; [reflexivity|]. left. now split. Qed.
+
+Lemma step_N_skip : forall sec w L, is_skip L = true -> step (N sec w) L = Ok (mkSt sec [] true w).
+Proof. intros sec w L H. unfold step. cbn [st_cw st_sec st_buf st_wr]. now rewrite H. Qed.
+
+Lemma step_N_header : forall sec w L, is_skip L = false -> is_header L = true ->
+  step (N sec w) L = Ok (N (inner L) w).
+Proof. intros sec w L H1 H2. unfold step. cbn [st_cw st_sec st_buf st_wr]. rewrite H1, H2. reflexivity. Qed.
+
+Lemma step_cont : forall sec B w L, is_skip L = false -> is_header L = false -> ends_with "\" L = true ->
+  step (mkSt sec B false w) L = Ok (mkSt sec (B ++ cut_comment (trim (removelast L) ++ [SP])) false w).
+Proof. intros sec B w L H1 H2 H3. unfold step. cbn [st_cw st_sec st_buf st_wr]. rewrite H1, H2, H3. reflexivity. Qed.
+
+Lemma step_last : forall sec B w L, is_skip L = false -> is_header L = false -> ends_with "\" L = false ->
+  step (mkSt sec B false w) L = Ok (mkSt sec (B ++ cut_comment L) true w).
+Proof. intros sec B w L H1 H2 H3. unfold step. cbn [st_cw st_sec st_buf st_wr]. rewrite H1, H2, H3. reflexivity. Qed.
+
+Lemma ends_with_snoc : forall c y d, ends_with c (y ++ [d]) = Ascii.eqb d c.
+Proof. intros. unfold ends_with. rewrite frev_rev, rev_app_distr. reflexivity. Qed.
+
+Lemma ends_with_app : forall c A B, B <> [] -> ends_with c (A ++ B) = ends_with c B.
+Proof.
+  intros c A B H. destruct (exists_last H) as [B' [d E]]. subst B.
+  rewrite app_assoc. now rewrite !ends_with_snoc.
+Qed.
+
+Definition nocmt (x : list ascii) : Prop := forallb (fun c => negb (is_cmt c)) x = true.
+
+Lemma cut_comment_id : forall x, nocmt x -> cut_comment x = x.
+Proof.
+  unfold nocmt. induction x as [|c x IH]; intro H; [reflexivity|].
+  cbn [forallb] in H. apply andb_true_iff in H. destruct H as [H1 H2]. apply negb_true_iff in H1.
+  cbn [cut_comment]. rewrite H1. now rewrite IH.
+Qed.
+
+Lemma nocmt_app : forall a b, nocmt a -> nocmt b -> nocmt (a ++ b).
+Proof. unfold nocmt. intros. rewrite forallb_app. now rewrite H, H0. Qed.
+
+Lemma nocmt_space : forall a, all_space a -> nocmt a.
+Proof.
+  unfold all_space, nocmt. induction a as [|c a IH]; intro H; [reflexivity|].
+  cbn [forallb] in *. apply andb_true_iff in H. destruct H as [H1 H2].
+  destruct (space_not_struct c H1) as [E _]. rewrite E. cbn. now apply IH.
+Qed.
+
+Lemma nocmt_head : forall c t, nocmt (c :: t) -> is_cmt c = false.
+Proof. unfold nocmt. intros c t H. cbn [forallb] in H. apply andb_true_iff in H. destruct H as [H _]. now apply negb_true_iff in H. Qed.
+
+(* lines of the three kinds *)
+Lemma skip_line : forall k, wf_skip k = true -> is_skip (trim (skip_raw k)) = true.
+Proof.
+  intros [p|i semi t] H; cbn [wf_skip skip_raw] in *.
+  - rewrite trim_all_space by now apply blankb_all_space. reflexivity.
+  - apply andb_true_iff in H. destruct H as [H _]. apply blankb_all_space in H.
+    destruct semi; rewrite trim_first by (assumption || reflexivity); reflexivity.
+Qed.
+
+Lemma header_line : forall ind name trail, all_space ind -> all_space trail ->
+  let L := trim (ind ++ "[" :: name ++ "]" :: trail) in
+  is_skip L = false /\ is_header L = true /\ inner L = name.
+Proof.
+  intros ind name trail Hi Ht.
+  assert (E : ind ++ "[" :: name ++ "]" :: trail = ind ++ ("[" :: name ++ ["]"]) ++ trail).
+  { cbn [app]. rewrite <- app_assoc. reflexivity. }
+  cbv zeta. rewrite E. rewrite trim_pad; try assumption.
+  - repeat split.
+    + unfold is_header. cbn [starts_with]. rewrite Ascii.eqb_refl.
+      change ("[" :: name ++ ["]"]) with (("[" :: name) ++ ["]"]). rewrite ends_with_snoc. reflexivity.
+    + unfold inner. cbn [tl]. apply removelast_last.
+  - apply (trimmedb_intro _ _ ("[" :: name) "]"); reflexivity.
+Qed.
+
+(* the text of the last physical line of a definition *)
+Fixpoint final_text (X : list ascii) (cs : list cont) : list ascii :=
+  match cs with [] => X | c :: r => final_text (c_text c) r end.
+
+Definition value_tail (cs : list cont) : list ascii := flat_map (fun c => SP :: c_text c) cs.
+
+(* the physical lines of one definition, started with an empty or partial buffer *)
+Lemma conts_run : forall cs ind X B sec w trail,
+  all_space ind -> all_space trail ->
+  X <> [] -> trimmedb X = true -> nocmt X ->
+  Forall (fun c => wf_cont c = true /\ nocmt (c_text c)) cs ->
+  is_header (final_text X cs) = false -> ends_with "\" (final_text X cs) = false ->
+  steps (mkSt sec B false w) (map trim (cont_lines (ind ++ X) cs trail))
+  = Ok (mkSt sec (B ++ X ++ value_tail cs) true w).
+Proof.
+  induction cs as [|a cs IH]; intros ind X B sec w trail Hi Ht HX HXt HXc Hcs Hh He.
+  - cbn [cont_lines map steps final_text value_tail flat_map] in *.
+    rewrite <- app_assoc. rewrite trim_pad by assumption.
+    destruct X as [|c t]; [congruence|].
+    rewrite step_last; try assumption.
+    + rewrite cut_comment_id by assumption. now rewrite app_nil_r.
+    + cbn [is_skip]. now apply nocmt_head in HXc.
+  - inversion Hcs as [|? ? [Ha Hac] Hcs']; subst.
+    unfold wf_cont in Ha. repeat (apply andb_true_iff in Ha; destruct Ha as [Ha ?]).
+    rename H into Htr, H0 into Hne, H1 into Hind, H2 into Htrail.
+    apply blankb_all_space in Ha. apply blankb_all_space in Hind. apply blankb_all_space in Htrail.
+    apply negb_true_iff in Hne.
+    cbn [cont_lines map steps].
+    assert (E : (ind ++ X) ++ c_pad a ++ "\" :: c_trail a = ind ++ (X ++ c_pad a ++ ["\"]) ++ c_trail a).
+    { rewrite <- !app_assoc. reflexivity. }
+    rewrite E. clear E.
+    destruct X as [|c t]; [congruence|].
+    destruct (trimmedb_cons _ _ HXt) as [Hc _].
+    assert (Etr : trimmedb ((c :: t) ++ c_pad a ++ ["\"]) = true).
+    { apply (trimmedb_intro c (t ++ c_pad a ++ ["\"]) ((c :: t) ++ c_pad a) "\").
+      - cbn [app]. now rewrite <- app_assoc.
+      - assumption.
+      - reflexivity. }
+    rewrite trim_pad by assumption.
+    assert (El : (c :: t) ++ c_pad a ++ ["\"] = ((c :: t) ++ c_pad a) ++ ["\"]) by now rewrite <- app_assoc.
+    rewrite step_cont.
+    + rewrite El. rewrite removelast_last. rewrite trim_pad_r by assumption.
+      rewrite cut_comment_id by (apply nocmt_app; [assumption|reflexivity]).
+      cbn [final_text] in Hh, He.
+      rewrite (IH (c_ind a) (c_text a) (B ++ (c :: t) ++ [SP]) sec w trail); try assumption.
+      * f_equal. f_equal. cbn [value_tail flat_map]. rewrite <- !app_assoc. reflexivity.
+      * destruct (c_text a); [discriminate|discriminate].
+    + cbn [app is_skip]. now apply nocmt_head in HXc.
+    + unfold is_header. rewrite El. rewrite ends_with_snoc. cbn. now rewrite andb_false_r.
+    + rewrite El. rewrite ends_with_snoc. reflexivity.
+Qed.
+
+Lemma split_eq_app : forall K V, forallb (fun c => negb (Ascii.eqb c "=")) K = true ->
+  split_eq (K ++ "=" :: V) = Some (K, V).
+Proof.
+  induction K as [|c K IH]; intros V H.
+  - reflexivity.
+  - cbn [forallb] in H. apply andb_true_iff in H. destruct H as [H1 H2]. apply negb_true_iff in H1.
+    cbn [app split_eq]. rewrite H1. now rewrite IH.
+Qed.
+
+Lemma noeq_space : forall a, all_space a -> forallb (fun c => negb (Ascii.eqb c "=")) a = true.
+Proof.
+  unfold all_space. induction a as [|c a IH]; intro H; [reflexivity|].
+  cbn [forallb] in *. apply andb_true_iff in H. destruct H as [H1 H2].
+  destruct (space_not_struct c H1) as [_ [E _]]. rewrite E. cbn. now apply IH.
+Qed.
+
+Lemma plain_nocmt : forall x, plain x = true -> nocmt x.
+Proof.
+  unfold plain, nocmt. induction x as [|c x IH]; intro H; [reflexivity|].
+  cbn [forallb] in *. apply andb_true_iff in H. destruct H as [H1 H2].
+  apply andb_true_iff in H1. destruct H1 as [_ H1]. rewrite H1. cbn. now apply IH.
+Qed.
+
+Lemma plain_no_lf : forall x, plain x = true -> no_lf x = true.
+Proof.
+  unfold plain, no_lf. induction x as [|c x IH]; intro H; [reflexivity|].
+  cbn [forallb] in *. apply andb_true_iff in H. destruct H as [H1 H2].
+  apply andb_true_iff in H1. destruct H1 as [H1 _]. rewrite H1. cbn. now apply IH.
+Qed.
+
+Lemma plain_app : forall a b, plain (a ++ b) = true -> plain a = true /\ plain b = true.
+Proof. unfold plain. intros a b H. rewrite forallb_app in H. now apply andb_true_iff in H. Qed.
+
+Lemma plain_value_tail : forall cs, plain (value_tail cs) = true -> Forall (fun c => plain (c_text c) = true) cs.
+Proof.
+  induction cs as [|a cs IH]; intro H; [constructor|].
+  cbn [value_tail flat_map] in H. change (SP :: c_text a) with ([SP] ++ c_text a) in H.
+  rewrite <- app_assoc in H. apply plain_app in H. destruct H as [_ H].
+  apply plain_app in H. destruct H as [H1 H2]. constructor; [assumption|now apply IH].
+Qed.
+
+Lemma def_value_eq : forall d, def_value d = d_first d ++ value_tail (d_more d).
+Proof. reflexivity. Qed.
+
+Lemma ends_final : forall ch cs X, X <> [] -> Forall (fun c => c_text c <> []) cs ->
+  ends_with ch (X ++ value_tail cs) = ends_with ch (final_text X cs).
+Proof.
+  induction cs as [|a cs IH]; intros X HX H.
+  - cbn [value_tail flat_map final_text]. now rewrite app_nil_r.
+  - inversion H as [|? ? Ha Hcs]; subst. cbn [value_tail flat_map final_text].
+    change (SP :: c_text a) with ([SP] ++ c_text a). rewrite <- app_assoc. rewrite app_assoc.
+    rewrite ends_with_app.
+    + apply (IH (c_text a)); assumption.
+    + destruct (c_text a); [congruence|discriminate].
+Qed.
+
+Lemma last_ok_final : forall cs X a, last_ok (a :: cs) = negb (is_header (final_text X (a :: cs))).
+Proof.
+  induction cs as [|b cs IH]; intros X a; [reflexivity|].
+  change (last_ok (a :: b :: cs)) with (last_ok (b :: cs)).
+  change (final_text X (a :: b :: cs)) with (final_text (c_text a) (b :: cs)). apply IH.
+Qed.
+
+Lemma wf_cont_text : forall c, wf_cont c = true -> c_text c <> [].
+Proof.
+  intros c H. unfold wf_cont in H. repeat (apply andb_true_iff in H; destruct H as [H ?]).
+  destruct (c_text c); [discriminate|discriminate].
+Qed.
+
+Lemma Forall_and : forall (A : Type) (P Q : A -> Prop) l, Forall P l -> Forall Q l -> Forall (fun x => P x /\ Q x) l.
+Proof. induction 1; intro H2; inversion H2; subst; constructor; auto. Qed.
+
+Lemma forallb_Forall : forall (A : Type) (f : A -> bool) l, forallb f l = true -> Forall (fun x => f x = true) l.
+Proof.
+  induction l as [|x l IH]; intro H; [constructor|].
+  cbn [forallb] in H. apply andb_true_iff in H. destruct H. constructor; auto.
+Qed.
+
+Ltac norm_app := repeat (progress (cbn [app]; rewrite <- ?app_assoc)).
+
+(* one whole definition, from the state between two items *)
+Lemma def_run : forall d sec w,
+  wf_ldef d = true -> wf_key (d_key d) = true -> wf_value (def_value d) = true ->
+  exists s', steps (N sec w) (map trim (cont_lines (d_ind d ++ def_head d) (d_more d) (d_trail d))) = Ok s'
+             /\ Inv s' sec ((norm_sec sec, d_key d, def_value d) :: map entry w).
+Proof.
+  intros d sec w Hd Hk Hv.
+  unfold wf_ldef, wf_ldef_g in Hd. repeat (apply andb_true_iff in Hd; destruct Hd as [Hd ?]).
+  rename H into Hmore, H0 into Hft, H1 into Htrail, H2 into Hws2, H3 into Hws1, H4 into Hind.
+  apply blankb_all_space in Htrail. apply blankb_all_space in Hws2.
+  apply blankb_all_space in Hws1. apply blankb_all_space in Hind.
+  unfold wf_key in Hk. repeat (apply andb_true_iff in Hk; destruct Hk as [Hk ?]).
+  rename H into Hkb, H0 into Hkeq, H1 into Hkp, H2 into Hkt.
+  apply negb_true_iff in Hkb.
+  unfold wf_value in Hv. repeat (apply andb_true_iff in Hv; destruct Hv as [Hv ?]).
+  rename H into Hvs, H0 into Hvp. apply negb_true_iff in Hvs.
+  destruct (d_key d) as [|kc kt] eqn:EK; [discriminate|]. clear Hk.
+  destruct (trimmedb_cons _ _ Hkt) as [Hkc _].
+  cbn [starts_with] in Hkb.
+  assert (Hsplit : forall V, split_eq (((kc :: kt) ++ d_ws1 d) ++ "=" :: V) = Some ((kc :: kt) ++ d_ws1 d, V)).
+  { intro V. apply split_eq_app. rewrite forallb_app. rewrite Hkeq. now rewrite noeq_space. }
+  destruct (d_first d) as [|fc ft] eqn:EF.
+  - (* empty value: the line is  key ws1 '='  followed by blanks only *)
+    destruct (d_more d) as [|? ?] eqn:EM; [|discriminate].
+    unfold def_head. rewrite EK, EF.
+    assert (E : (d_ind d ++ (kc :: kt) ++ d_ws1 d ++ "=" :: d_ws2 d ++ []) ++ d_trail d
+                = (d_ind d ++ ((kc :: kt) ++ d_ws1 d ++ ["="])) ++ (d_ws2 d ++ d_trail d)).
+    { rewrite app_nil_r. rewrite <- !app_assoc. reflexivity. }
+    cbn [cont_lines]. rewrite E. clear E.
+    pose proof (conts_run [] (d_ind d) ((kc :: kt) ++ d_ws1 d ++ ["="]) [] sec w (d_ws2 d ++ d_trail d)) as R.
+    cbn [cont_lines] in R. rewrite R; clear R.
+    + eexists. split; [reflexivity|]. split; [reflexivity|]. right.
+      cbn [st_cw st_buf st_wr]. split; [reflexivity|]. split; [discriminate|].
+      exists ((kc :: kt) ++ d_ws1 d), []. split.
+      * cbn [value_tail flat_map]. rewrite app_nil_r.
+        rewrite <- (Hsplit []). f_equal. rewrite <- app_assoc. reflexivity.
+      * unfold entry. rewrite def_value_eq, EF, EM. cbn [value_tail flat_map].
+        rewrite (trim_pad_r (kc :: kt)) by assumption. reflexivity.
+    + assumption.
+    + now apply all_space_app.
+    + discriminate.
+    + apply (trimmedb_intro kc (kt ++ d_ws1 d ++ ["="]) ((kc :: kt) ++ d_ws1 d) "=").
+      * cbn [app]. now rewrite <- app_assoc.
+      * assumption.
+      * reflexivity.
+    + apply nocmt_app; [now apply plain_nocmt|]. apply nocmt_app; [now apply nocmt_space|reflexivity].
+    + constructor.
+    + cbn [final_text]. unfold is_header. cbn [app starts_with]. now rewrite Hkb.
+    + cbn [final_text]. rewrite app_assoc. rewrite ends_with_snoc. reflexivity.
+  - (* non-empty value *)
+    rewrite def_value_eq in *. rewrite EF in *.
+    apply plain_app in Hvp. destruct Hvp as [Hfp Htp].
+    apply plain_value_tail in Htp.
+    destruct (trimmedb_cons _ _ Hft) as [Hfc [fy [fd [Efy Hfd]]]].
+    assert (Hconts : Forall (fun c => wf_cont c = true /\ nocmt (c_text c)) (d_more d)).
+    { apply Forall_and.
+      - destruct (d_more d); [constructor|].
+        repeat (apply andb_true_iff in Hmore; destruct Hmore as [Hmore ?]).
+        now apply forallb_Forall.
+      - eapply Forall_impl; [|exact Htp]. intros a Ha. now apply plain_nocmt. }
+    assert (Hne : Forall (fun c => c_text c <> []) (d_more d)).
+    { eapply Forall_impl; [|exact Hconts]. intros a [Ha _]. now apply wf_cont_text. }
+    pose proof (conts_run (d_more d) (d_ind d) (def_head d) [] sec w (d_trail d)) as R.
+    rewrite R; clear R.
+    + eexists. split; [reflexivity|]. split; [reflexivity|]. right.
+      cbn [st_cw st_buf st_wr]. split; [reflexivity|]. split.
+      { unfold def_head. rewrite EK. discriminate. }
+      exists ((kc :: kt) ++ d_ws1 d), (d_ws2 d ++ (fc :: ft) ++ value_tail (d_more d)). split.
+      * rewrite <- (Hsplit (d_ws2 d ++ (fc :: ft) ++ value_tail (d_more d))). f_equal.
+        unfold def_head. rewrite EK, EF. norm_app. reflexivity.
+      * unfold entry. rewrite trim_pad_r by assumption. rewrite trim_pad_l; [reflexivity|assumption|].
+        unfold wf_value in *. assumption.
+    + assumption.
+    + assumption.
+    + unfold def_head. rewrite EK. discriminate.
+    + unfold def_head. rewrite EK, EF.
+      apply (trimmedb_intro kc (kt ++ d_ws1 d ++ "=" :: d_ws2 d ++ fc :: ft) ((kc :: kt) ++ d_ws1 d ++ "=" :: d_ws2 d ++ fy) fd).
+      * rewrite Efy. cbn [app]. rewrite <- !app_assoc. cbn [app]. rewrite <- !app_assoc. reflexivity.
+      * assumption.
+      * assumption.
+    + unfold def_head. rewrite EK, EF. apply nocmt_app; [now apply plain_nocmt|].
+      apply nocmt_app; [now apply nocmt_space|].
+      change ("=" :: d_ws2 d ++ fc :: ft) with (["="] ++ d_ws2 d ++ fc :: ft).
+      apply nocmt_app; [reflexivity|]. apply nocmt_app; [now apply nocmt_space|now apply plain_nocmt].
+    + assumption.
+    + destruct (d_more d) as [|a cs] eqn:EM.
+      * cbn [final_text]. unfold is_header, def_head. rewrite EK. cbn [app starts_with]. now rewrite Hkb.
+      * repeat (apply andb_true_iff in Hmore; destruct Hmore as [Hmore ?]).
+        cbn [negb orb] in H. rewrite (last_ok_final cs (def_head d) a) in H. now apply negb_true_iff in H.
+    + assert (Ev : ends_with "\" (final_text (fc :: ft) (d_more d)) = false).
+      { rewrite <- ends_final; [assumption|discriminate|assumption]. }
+      destruct (d_more d) as [|a cs].
+      * cbn [final_text] in *.
+        assert (E : def_head d = (d_key d ++ d_ws1 d ++ "=" :: d_ws2 d) ++ fc :: ft).
+        { unfold def_head. rewrite EF. norm_app. reflexivity. }
+        rewrite E. rewrite ends_with_app; [assumption|discriminate].
+      * exact Ev.
+Qed.
+
+(* blank and comment lines between items change nothing *)
+Lemma gap_run : forall gap s sec E, forallb wf_skip gap = true -> Inv s sec E ->
+  exists s', steps s (map trim (map skip_raw gap)) = Ok s' /\ Inv s' sec E.
+Proof.
+  induction gap as [|k gap IH]; intros s sec E Hg HI.
+  - exists s. now split.
+  - cbn [forallb] in Hg. apply andb_true_iff in Hg. destruct Hg as [Hk Hg].
+    destruct (step_norm _ _ _ HI) as [w0 [Hw Hs]].
+    cbn [map steps]. rewrite Hs. rewrite step_N_skip by now apply skip_line.
+    apply IH; [assumption|]. subst E. split; [reflexivity|]. left. now split.
+Qed.
+
+Lemma cont_lines_cons : forall cur cs trail, exists L ls, cont_lines cur cs trail = L :: ls.
+Proof. intros cur [|c cs] trail; cbn [cont_lines]; eauto. Qed.
+
+Lemma def_raws_run : forall d s sec E,
+  wf_ldef d = true -> wf_key (d_key d) = true -> wf_value (def_value d) = true -> Inv s sec E ->
+  exists s', steps s (map trim (def_raws d)) = Ok s' /\ Inv s' sec ((norm_sec sec, d_key d, def_value d) :: E).
+Proof.
+  intros d s sec E Hd Hk Hv HI. unfold def_raws. rewrite map_app, steps_app.
+  assert (Hg : forallb wf_skip (d_gap d) = true).
+  { unfold wf_ldef, wf_ldef_g in Hd. repeat (apply andb_true_iff in Hd; destruct Hd as [Hd ?]). assumption. }
+  destruct (gap_run _ _ _ _ Hg HI) as [s1 [R1 I1]]. rewrite R1.
+  destruct (steps_norm _ _ _ I1) as [w0 [Hw Hs]].
+  destruct (cont_lines_cons (d_ind d ++ def_head d) (d_more d) (d_trail d)) as [L [ls EL]].
+  destruct (def_run d sec w0 Hd Hk Hv) as [s2 [R2 I2]].
+  rewrite EL in *. cbn [map] in *. rewrite Hs. rewrite R2. exists s2. split; [reflexivity|]. now subst E.
+Qed.
+
+Definition ldef_entry (sec : list ascii) (d : ldef) := (norm_sec sec, d_key d, def_value d).
+
+Lemma defs_run : forall defs s sec E,
+  forallb wf_ldef defs = true ->
+  forallb (fun d => wf_key (d_key d) && wf_value (def_value d)) defs = true ->
+  Inv s sec E ->
+  exists s', steps s (map trim (flat_map def_raws defs)) = Ok s'
+             /\ Inv s' sec (rev (map (ldef_entry sec) defs) ++ E).
+Proof.
+  induction defs as [|d defs IH]; intros s sec E H1 H2 HI.
+  - exists s. now split.
+  - cbn [forallb] in H1, H2. apply andb_true_iff in H1. destruct H1 as [Hd H1].
+    apply andb_true_iff in H2. destruct H2 as [Hkv H2]. apply andb_true_iff in Hkv. destruct Hkv as [Hk Hv].
+    cbn [flat_map]. rewrite map_app, steps_app.
+    destruct (def_raws_run d s sec E Hd Hk Hv HI) as [s1 [R1 I1]]. rewrite R1.
+    destruct (IH s1 sec _ H1 H2 I1) as [s2 [R2 I2]]. exists s2. split; [assumption|].
+    cbn [map rev]. rewrite <- app_assoc. exact I2.
+Qed.
+
+Lemma sec_run : forall sc s sec E,
+  wf_lsec sc = true ->
+  forallb (fun d => wf_key (d_key d) && wf_value (def_value d)) (s_defs sc) = true ->
+  Inv s sec E ->
+  exists s', steps s (map trim (sec_raws sc)) = Ok s'
+             /\ Inv s' (s_name sc) (rev (map (ldef_entry (s_name sc)) (s_defs sc)) ++ E).
+Proof.
+  intros sc s sec E Hs Hkv HI. unfold wf_lsec, wf_lsec_g in Hs.
+  repeat (apply andb_true_iff in Hs; destruct Hs as [Hs ?]).
+  rename H into Hdefs, H0 into Htr, H1 into Hind.
+  apply blankb_all_space in Htr. apply blankb_all_space in Hind.
+  unfold sec_raws. rewrite map_app, steps_app.
+  destruct (gap_run _ _ _ _ Hs HI) as [s1 [R1 I1]]. rewrite R1.
+  destruct (steps_norm _ _ _ I1) as [w0 [Hw Hst]].
+  cbn [map]. rewrite Hst. cbn [steps].
+  destruct (header_line (s_ind sc) (s_name sc) (s_trail sc) Hind Htr) as [H1 [H2 H3]].
+  unfold header_raw. rewrite step_N_header by assumption. rewrite H3.
+  subst E. apply defs_run; try assumption. apply Inv_N.
+Qed.
+
+Definition lsec_entries (sc : lsec) := map (ldef_entry (s_name sc)) (s_defs sc).
+
+Lemma secs_run : forall secs s sec E,
+  forallb wf_lsec secs = true ->
+  forallb (fun sc => forallb (fun d => wf_key (d_key d) && wf_value (def_value d)) (s_defs sc)) secs = true ->
+  Inv s sec E ->
+  exists s' sec', steps s (map trim (flat_map sec_raws secs)) = Ok s'
+                  /\ Inv s' sec' (rev (flat_map lsec_entries secs) ++ E).
+Proof.
+  induction secs as [|sc secs IH]; intros s sec E H1 H2 HI.
+  - exists s, sec. now split.
+  - cbn [forallb] in H1, H2. apply andb_true_iff in H1. destruct H1 as [Hs H1].
+    apply andb_true_iff in H2. destruct H2 as [Hkv H2].
+    cbn [flat_map]. rewrite map_app, steps_app.
+    destruct (sec_run sc s sec E Hs Hkv HI) as [s1 [R1 I1]]. rewrite R1.
+    destruct (IH s1 _ _ H1 H2 I1) as [s2 [sec2 [R2 I2]]]. exists s2, sec2. split; [assumption|].
+    rewrite rev_app_distr. rewrite <- app_assoc. exact I2.
+Qed.
+
+Lemma finish_Inv : forall s sec E, Inv s sec E -> exists s', finish s = Ok s' /\ map entry (st_wr s') = E.
+Proof.
+  intros s sec E HI. destruct (pre_flush _ _ _ HI) as [s0 [Hp [H1 [H2 H3]]]].
+  exists s0. unfold finish. rewrite Hp. split; [|assumption]. unfold flush. now rewrite H2.
+Qed.
+
+(* a trailing empty line changes nothing *)
+Lemma run_snoc_blank : forall ls, run (ls ++ [[]]) = run ls.
+Proof.
+  intro ls. unfold run. rewrite steps_app. destruct (steps init ls) as [s|e]; [|reflexivity].
+  destruct s as [sc bf c w]. cbn [steps]. unfold step, finish, flush.
+  cbn [st_cw st_buf st_sec st_wr is_skip].
+  destruct c; destruct bf as [|b bf]; cbn [st_cw st_buf st_sec st_wr]; try reflexivity.
+  all: destruct (split_eq (b :: bf)) as [[k v]|]; cbn [st_cw st_buf st_sec st_wr]; reflexivity.
+Qed.
+
+(* ========================================================================================== *)
+(** * 4. Whole documents *)
+
+Lemma forallb_map : forall (A B : Type) (f : B -> bool) (g : A -> B) l,
+  forallb f (map g l) = forallb (fun x => f (g x)) l.
+Proof. induction l as [|x l IH]; [reflexivity|]. cbn [map forallb]. now rewrite IH. Qed.
+
+Lemma forallb_andb : forall (A : Type) (f g : A -> bool) l,
+  forallb (fun x => f x && g x) l = forallb f l && forallb g l.
+Proof.
+  induction l as [|x l IH]; [reflexivity|]. cbn [forallb]. rewrite IH.
+  destruct (f x), (g x), (forallb f l), (forallb g l); reflexivity.
+Qed.
+
+Lemma forallb_ext' : forall (A : Type) (f g : A -> bool) l, (forall x, f x = g x) -> forallb f l = forallb g l.
+Proof. intros A f g l H. induction l as [|x l IH]; [reflexivity|]. cbn [forallb]. now rewrite H, IH. Qed.
+
+Lemma no_lf_app : forall a b, no_lf (a ++ b) = no_lf a && no_lf b.
+Proof. intros. unfold no_lf. apply forallb_app. Qed.
+
+Lemma Forall_flat_map_intro : forall (A B : Type) (P : B -> Prop) (f : A -> list B) l,
+  Forall (fun x => Forall P (f x)) l -> Forall P (flat_map f l).
+Proof.
+  induction 1 as [|x l Hx Hl IH]; [constructor|]. cbn [flat_map]. apply Forall_app. now split.
+Qed.
+
+Lemma skip_no_lf : forall k, wf_skip k = true -> no_lf (skip_raw k) = true.
+Proof.
+  intros [p|i semi t] H; cbn [wf_skip skip_raw] in *.
+  - now apply blankb_no_lf.
+  - apply andb_true_iff in H. destruct H as [H1 H2]. rewrite no_lf_app. rewrite (blankb_no_lf _ H1).
+    cbn [andb]. unfold no_lf in *. cbn [forallb]. rewrite H2. destruct semi; reflexivity.
+Qed.
+
+Lemma gap_no_lf : forall gap, forallb wf_skip gap = true -> Forall (fun r => no_lf r = true) (map skip_raw gap).
+Proof.
+  induction gap as [|k gap IH]; intro H; [constructor|].
+  cbn [forallb] in H. apply andb_true_iff in H. destruct H. constructor; [now apply skip_no_lf|auto].
+Qed.
+
+Lemma cont_lines_no_lf : forall cs cur trail, no_lf cur = true -> no_lf trail = true ->
+  Forall (fun c => wf_cont c = true /\ no_lf (c_text c) = true) cs ->
+  Forall (fun r => no_lf r = true) (cont_lines cur cs trail).
+Proof.
+  induction cs as [|a cs IH]; intros cur trail Hc Ht H; cbn [cont_lines].
+  - constructor; [|constructor]. rewrite no_lf_app. now rewrite Hc, Ht.
+  - inversion H as [|? ? [Ha Hat] Hcs]; subst.
+    unfold wf_cont in Ha. repeat (apply andb_true_iff in Ha; destruct Ha as [Ha ?]).
+    apply blankb_no_lf in Ha. apply blankb_no_lf in H2. apply blankb_no_lf in H3.
+    constructor.
+    + rewrite !no_lf_app. rewrite Hc, Ha. cbn [andb]. unfold no_lf in *. cbn [forallb]. now rewrite H3.
+    + apply IH; try assumption. rewrite no_lf_app. now rewrite H2, Hat.
+Qed.
+
+Lemma def_no_lf : forall d, wf_ldef d = true -> wf_key (d_key d) = true -> wf_value (def_value d) = true ->
+  Forall (fun r => no_lf r = true) (def_raws d).
+Proof.
+  intros d Hd Hk Hv. unfold def_raws. apply Forall_app.
+  unfold wf_ldef, wf_ldef_g in Hd. repeat (apply andb_true_iff in Hd; destruct Hd as [Hd ?]).
+  rename H into Hmore, H0 into Hft, H1 into Htrail, H2 into Hws2, H3 into Hws1, H4 into Hind.
+  split; [now apply gap_no_lf|].
+  unfold wf_key in Hk. repeat (apply andb_true_iff in Hk; destruct Hk as [Hk ?]).
+  unfold wf_value in Hv. repeat (apply andb_true_iff in Hv; destruct Hv as [Hv ?]).
+  rewrite def_value_eq in *. apply plain_app in H4. destruct H4 as [Hfp Htp].
+  apply plain_value_tail in Htp.
+  apply cont_lines_no_lf.
+  - unfold def_head. rewrite !no_lf_app. rewrite (blankb_no_lf _ Hind), (plain_no_lf _ H1), (blankb_no_lf _ Hws1).
+    cbn [andb]. unfold no_lf at 1. cbn [forallb]. fold (no_lf (d_ws2 d ++ d_first d)).
+    rewrite no_lf_app. rewrite (blankb_no_lf _ Hws2), (plain_no_lf _ Hfp). reflexivity.
+  - now apply blankb_no_lf.
+  - apply Forall_and.
+    + destruct (d_more d); [constructor|].
+      repeat (apply andb_true_iff in Hmore; destruct Hmore as [Hmore ?]). now apply forallb_Forall.
+    + eapply Forall_impl; [|exact Htp]. intros a Ha. now apply plain_no_lf.
+Qed.
+
+Definition kv_ok (d : ldef) : bool := wf_key (d_key d) && wf_value (def_value d).
+
+Lemma wf_doc_erase : forall secs, wf_doc (map erase_sec secs) = true ->
+  forallb (fun sc => no_lf (s_name sc)) secs = true /\
+  forallb (fun sc => forallb kv_ok (s_defs sc)) secs = true.
+Proof.
+  intros secs H. unfold wf_doc in H. rewrite forallb_map in H.
+  rewrite forallb_andb in H. apply andb_true_iff in H. destruct H as [H1 H2]. split; [exact H1|].
+  erewrite forallb_ext'; [exact H2|]. intro sc. cbn [erase_sec snd]. rewrite forallb_map. reflexivity.
+Qed.
+
+Lemma sec_no_lf : forall sc, wf_lsec sc = true -> no_lf (s_name sc) = true -> forallb kv_ok (s_defs sc) = true ->
+  Forall (fun r => no_lf r = true) (sec_raws sc).
+Proof.
+  intros sc Hs Hn Hkv. unfold wf_lsec, wf_lsec_g in Hs. repeat (apply andb_true_iff in Hs; destruct Hs as [Hs ?]).
+  unfold sec_raws. apply Forall_app. split; [now apply gap_no_lf|]. constructor.
+  - unfold header_raw. rewrite no_lf_app. rewrite (blankb_no_lf _ H1). cbn [andb].
+    unfold no_lf at 1. cbn [forallb]. fold (no_lf (s_name sc ++ "]" :: s_trail sc)). rewrite no_lf_app. rewrite Hn.
+    cbn [andb]. unfold no_lf at 1. cbn [forallb]. fold (no_lf (s_trail sc)). now rewrite (blankb_no_lf _ H0).
+  - apply Forall_flat_map_intro. apply Forall_forall. intros d Hin.
+    rewrite forallb_forall in H, Hkv. specialize (H d Hin). specialize (Hkv d Hin).
+    unfold kv_ok in Hkv. apply andb_true_iff in Hkv. destruct Hkv. now apply def_no_lf.
+Qed.
+
+Lemma raws_no_lf : forall l, wf_ldoc l = true -> Forall (fun r => no_lf r = true) (doc_raws l).
+Proof.
+  intros l H. unfold wf_ldoc in H. apply andb_true_iff in H. destruct H as [Hd Hl].
+  unfold wf_layout, wf_layout_g in Hl. apply andb_true_iff in Hl. destruct Hl as [Hs Ht].
+  unfold erase in Hd. apply wf_doc_erase in Hd. destruct Hd as [Hn Hkv].
+  unfold doc_raws. apply Forall_app. split; [|now apply gap_no_lf].
+  apply Forall_flat_map_intro. apply Forall_forall. intros sc Hin.
+  rewrite forallb_forall in Hs, Hn, Hkv. apply sec_no_lf; auto.
+Qed.
+
+Lemma entries_erase : forall secs, flat_map lsec_entries secs = flat_map sec_entries (map erase_sec secs).
+Proof.
+  induction secs as [|sc secs IH]; [reflexivity|]. cbn [flat_map map]. rewrite IH. f_equal.
+  unfold lsec_entries, sec_entries. cbn [erase_sec fst snd]. rewrite map_map. reflexivity.
+Qed.
+
+Lemma parse_raw_render : forall l, wf_ldoc l = true ->
+  parse_raw (render l) = run (map trim (doc_raws l)).
+Proof.
+  intros l H. pose proof (raws_no_lf l H) as Hn. rewrite parse_raw_run. unfold render.
+  destruct (l_final_nl l).
+  - now rewrite lines_unlines_nl.
+  - destruct (lines_unlines_nonl _ Hn) as [E|[rs' [E1 E2]]]; [now rewrite E|].
+    rewrite E2. rewrite E1. rewrite map_app. cbn [map]. change (trim []) with (@nil ascii).
+    now rewrite run_snoc_blank.
+Qed.
+
+(** The layout theorem: for EVERY document and EVERY layout of it inside the guards, the
+    configuration read from the rendered text is exactly what the document defines. *)
+Theorem layout_invariant : forall l, wf_ldoc l = true -> parse (render l) = Ok (cfg_doc (erase l)).
+Proof.
+  intros l H. unfold parse. rewrite (parse_raw_render l H).
+  unfold wf_ldoc in H. apply andb_true_iff in H. destruct H as [Hd Hl].
+  unfold wf_layout, wf_layout_g in Hl. apply andb_true_iff in Hl. destruct Hl as [Hs Ht].
+  unfold erase in Hd. apply wf_doc_erase in Hd. destruct Hd as [_ Hkv].
+  unfold run, doc_raws. rewrite map_app, steps_app.
+  destruct (secs_run (l_secs l) init [] [] Hs Hkv (Inv_N [] [])) as [s1 [sec1 [R1 I1]]].
+  rewrite R1. destruct (gap_run _ _ _ _ Ht I1) as [s2 [R2 I2]]. rewrite R2.
+  destruct (finish_Inv _ _ _ I2) as [s3 [R3 E3]]. rewrite R3. rewrite E3.
+  rewrite app_nil_r. unfold cfg_doc, erase. now rewrite entries_erase.
+Qed.
+
+Corollary two_layouts : forall l1 l2, wf_ldoc l1 = true -> wf_ldoc l2 = true -> erase l1 = erase l2 ->
+  parse (render l1) = parse (render l2) /\ load_text (render l1) = load_text (render l2).
+Proof.
+  intros l1 l2 H1 H2 E. unfold load_text. rewrite (layout_invariant l1 H1), (layout_invariant l2 H2), E. now split.
+Qed.
+
+(* ========================================================================================== *)
+(** * 5. Section order; the model depends on look-ups only *)
+
+Lemma lookup_app : forall a b s k,
+  lookup (a ++ b) s k = match lookup a s k with Some v => Some v | None => lookup b s k end.
+Proof.
+  unfold lookup. induction a as [|e a IH]; intros b s k; [reflexivity|].
+  cbn [app find]. destruct (str_eqb (fst (fst e)) s && str_eqb (snd (fst e)) k); [reflexivity|apply IH].
+Qed.
+
+Lemma lookup_none : forall c s k, (forall e, In e c -> fst (fst e) <> s) -> lookup c s k = None.
+Proof.
+  unfold lookup. induction c as [|e c IH]; intros s k H; [reflexivity|].
+  cbn [find]. assert (E : str_eqb (fst (fst e)) s = false) by (apply str_eqb_neq; apply H; now left).
+  rewrite E. cbn [andb]. apply IH. intros e' Hin. apply H. now right.
+Qed.
+
+Lemma lookup_other_section : forall sc s k, norm_sec (fst sc) <> s -> lookup (rev (sec_entries sc)) s k = None.
+Proof.
+  intros sc s k H. apply lookup_none. intros e Hin. apply in_rev in Hin.
+  unfold sec_entries in Hin. apply in_map_iff in Hin. destruct Hin as [kv [E _]]. subst e. exact H.
+Qed.
+
+Lemma cfg_doc_cons : forall x d, cfg_doc (x :: d) = cfg_doc d ++ rev (sec_entries x).
+Proof. intros. unfold cfg_doc. cbn [flat_map]. apply rev_app_distr. Qed.
+
+Lemma distinctb_NoDup : forall l, distinctb l = true <-> NoDup l.
+Proof.
+  induction l as [|x l IH]; cbn [distinctb].
+  - split; [constructor|reflexivity].
+  - rewrite andb_true_iff, negb_true_iff, IH. split.
+    + intros [H1 H2]. constructor; [|assumption]. intro Hin.
+      assert (existsb (str_eqb x) l = true); [|congruence].
+      apply existsb_exists. exists x. split; [assumption|apply str_eqb_refl].
+    + intro H. inversion H as [|? ? Hn Hd]; subst. split; [|assumption].
+      destruct (existsb (str_eqb x) l) eqn:E; [|reflexivity].
+      apply existsb_exists in E. destruct E as [y [Hin Hy]]. apply str_eqb_eq in Hy. subst. contradiction.
+Qed.
+
+Lemma distinct_perm : forall d d' : list (list ascii * list (list ascii * list ascii)),
+  Permutation d d' -> distinct_sections d = true -> distinct_sections d' = true.
+Proof.
+  unfold distinct_sections. intros d d' P H. apply distinctb_NoDup. apply distinctb_NoDup in H.
+  eapply Permutation_NoDup; [|exact H]. now apply Permutation_map.
+Qed.
+
+(** With pairwise different section names the order of the sections does not matter. *)
+Theorem section_order : forall d d' : list (list ascii * list (list ascii * list ascii)),
+  Permutation d d' -> distinct_sections d = true ->
+  forall s k, lookup (cfg_doc d) s k = lookup (cfg_doc d') s k.
+Proof.
+  induction 1 as [|x l l' P IH|x y l|l l' l'' P1 IH1 P2 IH2]; intros Hd s k.
+  - reflexivity.
+  - rewrite !cfg_doc_cons, !lookup_app. rewrite IH; [reflexivity|].
+    unfold distinct_sections in *. cbn [map distinctb] in Hd. apply andb_true_iff in Hd. tauto.
+  - rewrite !cfg_doc_cons, !lookup_app. destruct (lookup (cfg_doc l) s k); [reflexivity|].
+    unfold distinct_sections in Hd. cbn [map distinctb existsb] in Hd.
+    apply andb_true_iff in Hd. destruct Hd as [Hd _]. apply negb_true_iff in Hd.
+    apply orb_false_iff in Hd. destruct Hd as [Hd _]. apply str_eqb_neq in Hd.
+    destruct (str_eqb (norm_sec (fst x)) s) eqn:E.
+    + apply str_eqb_eq in E. rewrite (lookup_other_section y) by congruence.
+      now destruct (lookup (rev (sec_entries x)) s k).
+    + apply str_eqb_neq in E. rewrite (lookup_other_section x) by assumption.
+      now destruct (lookup (rev (sec_entries y)) s k).
+  - rewrite IH1 by assumption. apply IH2. eapply distinct_perm; eassumption.
+Qed.
+
+Lemma cfg_doc_length_perm : forall d d' : list (list ascii * list (list ascii * list ascii)),
+  Permutation d d' -> List.length (cfg_doc d) = List.length (cfg_doc d').
+Proof.
+  induction 1 as [|x l l' P IH|x y l|l l' l'' P1 IH1 P2 IH2].
+  - reflexivity.
+  - rewrite !cfg_doc_cons, !app_length. now rewrite IH.
+  - rewrite !cfg_doc_cons, !app_length. lia.
+  - congruence.
+Qed.
+
+Lemma get_lookup : forall c c', (forall s k, lookup c s k = lookup c' s k) -> forall s k, get c s k = get c' s k.
+Proof. intros c c' H s k. unfold get. now rewrite H. Qed.
+
+Lemma load_section_ext : forall c c' sec fuel i, (forall s k, get c s k = get c' s k) ->
+  load_section c sec fuel i = load_section c' sec fuel i.
+Proof.
+  intros c c' sec fuel. induction fuel as [|f IH]; intros i H; [reflexivity|].
+  cbn [load_section]. rewrite H. destruct (add_def sec (key_of sec i) (get c' (sec_name sec) (key_of sec i))); [|reflexivity].
+  now rewrite IH.
+Qed.
+
+(** loadModelFromConfig is a function of the look-ups (and the model's loop bound). *)
+Lemma load_model_ext : forall c c', (forall s k, get c s k = get c' s k) -> List.length c = List.length c' ->
+  load_model c = load_model c'.
+Proof.
+  intros c c' H HL. unfold load_model.
+  assert (E : forall secs, load_secs c secs = load_secs c' secs).
+  { induction secs as [|sec secs IH]; [reflexivity|]. cbn [load_secs]. rewrite HL.
+    rewrite (load_section_ext c c') by assumption. now rewrite IH. }
+  now rewrite E.
+Qed.
+
+(** Two layouts of two documents that differ only in the order of their (distinctly named)
+    sections give the same model: same assertions, same tokens, same error. *)
+Theorem layout_and_order : forall l1 l2, wf_ldoc l1 = true -> wf_ldoc l2 = true ->
+  Permutation (erase l1) (erase l2) -> distinct_sections (erase l1) = true ->
+  load_text (render l1) = load_text (render l2).
+Proof.
+  intros l1 l2 H1 H2 P D. unfold load_text.
+  rewrite (layout_invariant l1 H1), (layout_invariant l2 H2).
+  apply load_model_ext.
+  - apply get_lookup. now apply section_order.
+  - now apply cfg_doc_length_perm.
+Qed.
+
+(* ========================================================================================== *)
+(** * 6. Arbitrary texts *)
+
+(** ** 6a. Totality with explicit errors *)
+
+Definition no_equals_error (e : error) : Prop :=
+  exists b, e = ENoEquals b /\ split_eq b = None /\ b <> [].
+
+Lemma flush_err : forall s e, flush s = Err e -> no_equals_error e.
+Proof.
+  intros s e H. unfold flush in H. destruct (st_buf s) as [|c b] eqn:E; [discriminate|].
+  destruct (split_eq (c :: b)) as [[k v]|] eqn:E2; [discriminate|]. inversion H; subst.
+  exists (c :: b). repeat split; [assumption|discriminate].
+Qed.
+
+Lemma step_err : forall s L e, step s L = Err e -> no_equals_error e.
+Proof.
+  intros s L e H. unfold step in H.
+  destruct (if st_cw s then flush s else Ok s) as [s0|e0] eqn:E0.
+  - destruct (is_skip L); [discriminate|]. destruct (is_header L); [|discriminate].
+    cbn [st_buf st_sec st_wr st_cw] in H.
+    destruct (is_nil (st_buf s0)); [discriminate|].
+    destruct (flush (mkSt (st_sec s0) (st_buf s0) false (st_wr s0))) as [s2|e2] eqn:E2; [discriminate|].
+    inversion H; subst. eapply flush_err; eassumption.
+  - inversion H; subst. destruct (st_cw s); [|discriminate]. eapply flush_err; eassumption.
+Qed.
+
+Lemma steps_err : forall ls s e, steps s ls = Err e -> no_equals_error e.
+Proof.
+  induction ls as [|L ls IH]; intros s e H; cbn [steps] in H; [discriminate|].
+  destruct (step s L) as [s'|e'] eqn:E; [eapply IH; eassumption|].
+  inversion H; subst. eapply step_err; eassumption.
+Qed.
+
+Lemma finish_err : forall s e, finish s = Err e -> no_equals_error e.
+Proof.
+  intros s e H. unfold finish in H. destruct (if st_cw s then flush s else Ok s) as [s0|e0] eqn:E0.
+  - eapply flush_err; eassumption.
+  - inversion H; subst. destruct (st_cw s); [|discriminate]. eapply flush_err; eassumption.
+Qed.
+
+(** Reading a configuration from ANY text gives a configuration or the one error of
+    config.go's write(): a pending definition text without '='. *)
+Theorem parse_total : forall t,
+  (exists c, parse t = Ok c) \/ (exists e, parse t = Err e /\ no_equals_error e).
+Proof.
+  intro t. unfold parse, parse_raw.
+  destruct (steps init (map trim (phys_lines t))) as [s|e] eqn:E.
+  - destruct (finish s) as [s'|e] eqn:F; [left; eauto|].
+    right. exists e. split; [reflexivity|]. eapply finish_err; eassumption.
+  - right. exists e. split; [reflexivity|]. eapply steps_err; eassumption.
+Qed.
+
+Lemma load_section_err : forall c sec fuel i e, load_section c sec fuel i = Err e -> e = EFuel.
+Proof.
+  intros c sec fuel. induction fuel as [|f IH]; intros i e H; cbn [load_section] in H.
+  - now inversion H.
+  - destruct (add_def sec (key_of sec i) (get c (sec_name sec) (key_of sec i))); [|discriminate].
+    destruct (load_section c sec f (S i)) as [r|e'] eqn:E; [discriminate|].
+    inversion H; subst. eapply IH; eassumption.
+Qed.
+
+Lemma load_secs_err : forall c secs e, load_secs c secs = Err e -> e = EFuel.
+Proof.
+  intros c secs. induction secs as [|sec secs IH]; intros e H; cbn [load_secs] in H; [discriminate|].
+  destruct (load_section c sec (S (List.length c)) 1) as [a|e'] eqn:E.
+  - destruct (load_secs c secs) as [m|e''] eqn:E2; [discriminate|]. inversion H; subst. now apply IH.
+  - inversion H; subst. eapply load_section_err; eassumption.
+Qed.
+
+(** Building a model from ANY text gives a model, the configuration error, or the
+    "missing required sections" error (EFuel is the model's own loop bound, see Config.v). *)
+Theorem load_total : forall t,
+  match load_text t with
+  | Ok _ => exists c, parse t = Ok c
+  | Err (ENoEquals b) => parse t = Err (ENoEquals b) /\ no_equals_error (ENoEquals b)
+  | Err (EMissing ms) => ms <> [] /\ exists c, parse t = Ok c
+  | Err EFuel => exists c, parse t = Ok c
+  end.
+Proof.
+  intro t. unfold load_text. destruct (parse_total t) as [[c Hc]|[e [He Hn]]].
+  - rewrite Hc. unfold load_model. destruct (load_secs c all_secs) as [m|e] eqn:E.
+    + destruct (missing m) eqn:M; [eauto|]. split; [discriminate|eauto].
+    + apply load_secs_err in E. subst. eauto.
+  - rewrite He. destruct Hn as [b [Hb Hn]]. subst e. split; [reflexivity|]. exists b. now split.
+Qed.
+
+(** ** 6b. Nothing is dropped *)
+
+Lemma split_eq_sound : forall b k v, split_eq b = Some (k, v) -> b = k ++ "=" :: v.
+Proof.
+  induction b as [|c b IH]; intros k v H; cbn [split_eq] in H; [discriminate|].
+  destruct (Ascii.eqb c "=") eqn:E.
+  - apply Ascii.eqb_eq in E. inversion H; subst. reflexivity.
+  - destruct (split_eq b) as [[k' v']|]; [|discriminate]. inversion H; subst.
+    cbn [app]. f_equal. now apply IH.
+Qed.
+
+Lemma flat_map_app' : forall (A B : Type) (f : A -> list B) l1 l2,
+  flat_map f (l1 ++ l2) = flat_map f l1 ++ flat_map f l2.
+Proof. induction l1 as [|x l1 IH]; intro l2; [reflexivity|]. cbn [app flat_map]. now rewrite IH, app_assoc. Qed.
+
+(* everything that has been written or is waiting in the buffer, in text order *)
+Definition pending (s : st) : list ascii := flat_map raw_text (rev (st_wr s)) ++ st_buf s.
+
+Lemma flush_pending : forall s s', flush s = Ok s' -> pending s' = pending s /\ st_buf s' = [].
+Proof.
+  intros s s' H. unfold flush in H. destruct (st_buf s) as [|c b] eqn:E.
+  - inversion H; subst. now split.
+  - destruct (split_eq (c :: b)) as [[k v]|] eqn:E2; [|discriminate]. inversion H; subst.
+    split; [|reflexivity]. unfold pending. cbn [st_wr st_buf rev]. rewrite flat_map_app'.
+    cbn [flat_map]. unfold raw_text at 2. cbn [fst snd]. rewrite E.
+    rewrite (split_eq_sound _ _ _ E2). rewrite !app_nil_r. reflexivity.
+Qed.
+
+Lemma pre_pending : forall s s0, (if st_cw s then flush s else Ok s) = Ok s0 -> pending s0 = pending s.
+Proof.
+  intros s s0 H. destruct (st_cw s); [now apply flush_pending in H|]. now inversion H.
+Qed.
+
+Lemma step_pending : forall s L s', step s L = Ok s' -> pending s' = pending s ++ payload L.
+Proof.
+  intros s L s' H. unfold step in H.
+  destruct (if st_cw s then flush s else Ok s) as [s0|e0] eqn:E0; [|discriminate].
+  apply pre_pending in E0. rewrite <- E0. unfold payload.
+  destruct (is_skip L).
+  - inversion H; subst. unfold pending. cbn [st_wr st_buf]. now rewrite app_nil_r.
+  - destruct (is_header L).
+    + cbn [st_buf st_sec st_wr st_cw] in H. rewrite app_nil_r.
+      destruct (is_nil (st_buf s0)).
+      * inversion H; subst. reflexivity.
+      * destruct (flush (mkSt (st_sec s0) (st_buf s0) false (st_wr s0))) as [s2|e2] eqn:E2; [|discriminate].
+        inversion H; subst. apply flush_pending in E2. destruct E2 as [E2 _].
+        unfold pending in *. cbn [st_wr st_buf] in *. exact E2.
+    + inversion H; subst. unfold pending. cbn [st_wr st_buf]. now rewrite app_assoc.
+Qed.
+
+Lemma steps_pending : forall ls s s', steps s ls = Ok s' -> pending s' = pending s ++ flat_map payload ls.
+Proof.
+  induction ls as [|L ls IH]; intros s s' H; cbn [steps] in H.
+  - inversion H; subst. cbn [flat_map]. now rewrite app_nil_r.
+  - destruct (step s L) as [s1|e] eqn:E; [|discriminate].
+    apply step_pending in E. apply IH in H. rewrite H, E. cbn [flat_map]. now rewrite app_assoc.
+Qed.
+
+Lemma finish_pending : forall s s', finish s = Ok s' -> pending s' = pending s /\ st_buf s' = [].
+Proof.
+  intros s s' H. unfold finish in H.
+  destruct (if st_cw s then flush s else Ok s) as [s0|e0] eqn:E0; [|discriminate].
+  apply pre_pending in E0. apply flush_pending in H. destruct H as [H1 H2]. split; congruence.
+Qed.
+
+(** Conservation: whenever a text is accepted, the concatenation of what its lines contribute
+    (in text order) IS the concatenation of the `option=value` texts that were stored: no byte
+    of a definition line, other than layout blanks, a continuation backslash and an in-line
+    comment, disappears, and nothing is invented. *)
+Theorem nothing_dropped : forall t w, parse_raw t = Ok w ->
+  flat_map payload (map trim (phys_lines t)) = flat_map raw_text (rev w).
+Proof.
+  intros t w H. unfold parse_raw in H.
+  destruct (steps init (map trim (phys_lines t))) as [s|e] eqn:E; [|discriminate].
+  destruct (finish s) as [s'|e] eqn:F; [|discriminate]. inversion H; subst.
+  apply steps_pending in E. apply finish_pending in F. destruct F as [F1 F2].
+  unfold pending in *. cbn [init st_wr st_buf rev flat_map app] in E.
+  rewrite F2, app_nil_r in F1. congruence.
+Qed.
+
+Lemma payload_plain_line : forall L, is_skip L = false -> is_header L = false ->
+  ends_with "\" L = false -> nocmt L -> payload L = L.
+Proof. intros L H1 H2 H3 H4. unfold payload. rewrite H1, H2, H3. now apply cut_comment_id. Qed.
+
+(** Hence every definition line of an accepted text that carries neither a comment character
+    nor a continuation backslash is present, in full and contiguously, in the stored texts. *)
+Corollary def_line_kept : forall t w L, parse_raw t = Ok w ->
+  In L (map trim (phys_lines t)) ->
+  is_skip L = false -> is_header L = false -> ends_with "\" L = false -> nocmt L ->
+  exists pre post, flat_map raw_text (rev w) = pre ++ L ++ post.
+Proof.
+  intros t w L H Hin H1 H2 H3 H4. rewrite <- (nothing_dropped t w H).
+  apply in_split in Hin. destruct Hin as [l1 [l2 E]]. rewrite E.
+  rewrite flat_map_app'. cbn [flat_map]. rewrite (payload_plain_line L) by assumption. eauto.
+Qed.
+
+(** What the configuration holds for each stored text: section (""->"default"), TrimSpace of the
+    part before the first '=', TrimSpace of everything after it — the value is never cut. *)
+Lemma parse_entries : forall t w, parse_raw t = Ok w -> parse t = Ok (map entry w).
+Proof. intros t w H. unfold parse. now rewrite H. Qed.
+
+(** For rendered documents: every definition of the document is in the result, in full. *)
+Corollary rendered_defs_present : forall l s k v, wf_ldoc l = true ->
+  In (s, k, v) (flat_map (fun sc => map (fun kv => (fst sc, fst kv, snd kv)) (snd sc)) (erase l)) ->
+  exists c, parse (render l) = Ok c /\ In (norm_sec s, k, v) c.
+Proof.
+  intros l s k v H Hin. exists (cfg_doc (erase l)). split; [now apply layout_invariant|].
+  unfold cfg_doc. apply -> in_rev. apply in_flat_map in Hin. destruct Hin as [sc [Hsc Hin]].
+  apply in_flat_map. exists sc. split; [assumption|]. unfold sec_entries.
+  apply in_map_iff in Hin. destruct Hin as [kv [E Hkv]]. inversion E; subst.
+  apply in_map_iff. exists kv. now split.
+Qed.
+
+(** The splitter loses nothing but line terminators: every byte other than "\n" and "\r" is in
+    the physical lines, in order. *)
+Lemma flat_map_cons_first : forall c ls,
+  flat_map (filter keep_byte) (cons_first c ls) = filter keep_byte [c] ++ flat_map (filter keep_byte) ls.
+Proof.
+  intros c [|l r]; cbn [cons_first flat_map].
+  - reflexivity.
+  - cbn [filter]. destruct (keep_byte c); reflexivity.
+Qed.
+
+Theorem lines_lossless : forall t, flat_map (filter keep_byte) (phys_lines t) = filter keep_byte t.
+Proof.
+  assert (G : forall n t, List.length t <= n -> flat_map (filter keep_byte) (phys_lines t) = filter keep_byte t).
+  { induction n as [|n IH]; intros t Hn.
+    - destruct t; [reflexivity|cbn in Hn; lia].
+    - destruct t as [|c t']; [reflexivity|]. cbn [List.length] in Hn.
+      cbn [phys_lines]. destruct (Ascii.eqb c LF) eqn:Ec.
+      + apply Ascii.eqb_eq in Ec. subst c. cbn [flat_map filter app]. apply IH. lia.
+      + destruct t' as [|d t''].
+        * cbn [flat_map]. now rewrite app_nil_r.
+        * destruct (Ascii.eqb c CR && Ascii.eqb d LF) eqn:Ecd.
+          -- apply andb_true_iff in Ecd. destruct Ecd as [E1 E2].
+             apply Ascii.eqb_eq in E1. apply Ascii.eqb_eq in E2. subst c d.
+             cbn [flat_map filter app]. apply IH. cbn [List.length] in Hn. lia.
+          -- rewrite flat_map_cons_first. rewrite IH by lia.
+             change (c :: d :: t'') with ([c] ++ d :: t''). now rewrite filter_app. }
+  intro t. now apply (G (List.length t)).
+Qed.
+
+(** ** 6c. The slice expressions of the Go code stay in bounds *)
+
+(* section = string(line[1 : len(line)-1]) *)
+Lemma header_slice_in_bounds : forall L, is_header L = true -> 2 <= List.length L.
+Proof.
+  intros [|c [|d t]] H; cbn [List.length]; try lia.
+  - discriminate.
+  - unfold is_header, ends_with in H. cbn in H. apply andb_true_iff in H. destruct H as [H1 H2].
+    apply Ascii.eqb_eq in H1. apply Ascii.eqb_eq in H2. subst. discriminate.
+Qed.
+
+(* p = bytes.TrimSpace(line[:len(line)-1]) *)
+Lemma continuation_slice_in_bounds : forall L, ends_with "\" L = true -> 1 <= List.length L.
+Proof. intros [|c t] H; [discriminate|]. cbn [List.length]. lia. Qed.
+
+Fixpoint cnt (c : ascii) (l : list ascii) : nat :=
+  match l with [] => 0 | x :: t => (if Ascii.eqb x c then 1 else 0) + cnt c t end.
+
+Lemma split_on_length : forall c l, List.length (split_on c l) = S (cnt c l).
+Proof.
+  induction l as [|x l IH]; [reflexivity|]. cbn [split_on cnt].
+  destruct (Ascii.eqb x c).
+  - cbn [List.length]. now rewrite IH.
+  - destruct (split_on c l) as [|y r] eqn:E; cbn [List.length] in *; lia.
+Qed.
+
+Lemma cnt_app : forall c a b, cnt c (a ++ b) = cnt c a + cnt c b.
+Proof. induction a as [|x a IH]; intro b; [reflexivity|]. cbn [app cnt]. rewrite IH. lia. Qed.
+
+Lemma drop_to_spec : forall c v r, drop_to c v = Some r -> exists pre, v = pre ++ c :: r.
+Proof.
+  induction v as [|x v IH]; intros r H; cbn [drop_to] in H; [discriminate|].
+  destruct (Ascii.eqb x c) eqn:E.
+  - apply Ascii.eqb_eq in E. inversion H; subst. now exists [].
+  - destruct (IH r H) as [pre Hp]. exists (x :: pre). now rewrite Hp.
+Qed.
+
+Lemma take_until_spec : forall c r i, take_until c r = Some i -> exists post, r = i ++ c :: post.
+Proof.
+  induction r as [|x r IH]; intros i H; cbn [take_until] in H; [discriminate|].
+  destruct (Ascii.eqb x c) eqn:E.
+  - apply Ascii.eqb_eq in E. inversion H; subst. now exists r.
+  - destruct (take_until c r) as [p|] eqn:E2; [|discriminate]. inversion H; subst.
+    destruct (IH p eq_refl) as [post Hp]. exists post. now rewrite Hp at 1.
+Qed.
+
+(* ast.Tokens = ast.Tokens[:len(ast.Tokens)-len(ast.ParamsTokens)]  (role definitions) *)
+Lemma g_tokens_slice_in_bounds : forall v, List.length (params_tokens v) <= List.length (split_on "," v).
+Proof.
+  intro v. unfold params_tokens. destruct (drop_to "(" v) as [r|] eqn:E1; [|cbn; lia].
+  destruct (take_until ")" r) as [i|] eqn:E2; [|cbn; lia].
+  apply drop_to_spec in E1. destruct E1 as [pre E1]. apply take_until_spec in E2. destruct E2 as [post E2].
+  rewrite !split_on_length. subst v r. change ("(" :: i ++ ")" :: post) with (["("] ++ i ++ ")" :: post).
+  rewrite !cnt_app. lia.
+Qed.
+
+(* ========================================================================================== *)
+(** * 7. Every document has a layout; necessity of the guards *)
+
+Lemma erase_canon : forall d : list (list ascii * list (list ascii * list ascii)), erase (canon d) = d.
+Proof.
+  intro d. unfold erase, canon. cbn [l_secs]. rewrite map_map.
+  induction d as [|[n defs] d IH]; [reflexivity|]. cbn [map]. rewrite IH. f_equal.
+  unfold erase_sec, canon_sec. cbn [s_name s_defs fst snd]. f_equal. rewrite map_map.
+  induction defs as [|[k v] defs IHd]; [reflexivity|]. cbn [map]. rewrite IHd. f_equal.
+  unfold erase_def, canon_def, def_value. cbn [d_key d_first d_more flat_map fst snd]. now rewrite app_nil_r.
+Qed.
+
+Lemma wf_layout_canon : forall d : list (list ascii * list (list ascii * list ascii)),
+  wf_doc d = true -> wf_layout (canon d) = true.
+Proof.
+  intros d H. unfold wf_layout, wf_layout_g, canon. cbn [l_secs l_tail forallb]. rewrite andb_true_r.
+  rewrite forallb_map. unfold wf_doc in H. rewrite forallb_forall in *. intros [n defs] Hin.
+  specialize (H _ Hin). cbn [fst snd] in H. apply andb_true_iff in H. destruct H as [_ H].
+  unfold wf_lsec_g, canon_sec. cbn [s_gap s_ind s_trail s_defs forallb blankb fst snd andb].
+  rewrite forallb_map. rewrite forallb_forall in *. intros [k v] Hkv. specialize (H _ Hkv).
+  cbn [fst snd] in H. apply andb_true_iff in H. destruct H as [_ H].
+  unfold wf_value in H. repeat (apply andb_true_iff in H; destruct H as [H ?]).
+  unfold wf_ldef_g, canon_def. cbn [d_gap d_ind d_ws1 d_ws2 d_trail d_first d_more fst snd forallb].
+  rewrite H. reflexivity.
+Qed.
+
+(** Every well-formed document has at least one layout inside the guards (the plain one), so
+    "for all laid-out documents" covers every well-formed document. *)
+Theorem canonical_layout : forall d : list (list ascii * list (list ascii * list ascii)),
+  wf_doc d = true -> wf_ldoc (canon d) = true /\ erase (canon d) = d.
+Proof.
+  intros d H. split; [|apply erase_canon]. unfold wf_ldoc. rewrite erase_canon, H. now apply wf_layout_canon.
+Qed.
+
+(** The form of the statement asked for: for all documents d and all layouts l of d. *)
+Corollary layout_invariant_doc : forall (d : list (list ascii * list (list ascii * list ascii))) l,
+  erase l = d -> wf_doc d = true -> wf_layout l = true -> parse (render l) = Ok (cfg_doc d).
+Proof.
+  intros d l E Hd Hl. subst d. apply layout_invariant. unfold wf_ldoc. now rewrite Hd, Hl.
+Qed.
+
+(** ** Tokens of request / policy definitions do not depend on blanks round the commas *)
+
+Fixpoint join_comma (ys : list (list ascii)) : list ascii :=
+  match ys with
+  | [] => []
+  | y :: r => match r with [] => y | _ => y ++ "," :: join_comma r end
+  end.
+
+Definition comma_free (y : list ascii) : Prop := forallb (fun c => negb (Ascii.eqb c ",")) y = true.
+
+Lemma split_on_comma_free : forall y, comma_free y -> split_on "," y = [y].
+Proof.
+  unfold comma_free. induction y as [|c y IH]; intro H; [reflexivity|].
+  cbn [forallb] in H. apply andb_true_iff in H. destruct H as [H1 H2]. apply negb_true_iff in H1.
+  cbn [split_on]. rewrite H1. now rewrite IH.
+Qed.
+
+Lemma split_on_app_comma : forall y rest, comma_free y ->
+  split_on "," (y ++ "," :: rest) = y :: split_on "," rest.
+Proof.
+  unfold comma_free. induction y as [|c y IH]; intros rest H.
+  - cbn [app split_on]. reflexivity.
+  - cbn [forallb] in H. apply andb_true_iff in H. destruct H as [H1 H2]. apply negb_true_iff in H1.
+    cbn [app split_on]. rewrite H1. now rewrite IH.
+Qed.
+
+Lemma split_on_join : forall ys, ys <> [] -> Forall comma_free ys -> split_on "," (join_comma ys) = ys.
+Proof.
+  induction ys as [|y ys IH]; intros N H; [congruence|].
+  inversion H as [|? ? Hy Hys]; subst. destruct ys as [|y2 r].
+  - cbn [join_comma]. now apply split_on_comma_free.
+  - change (join_comma (y :: y2 :: r)) with (y ++ "," :: join_comma (y2 :: r)).
+    rewrite split_on_app_comma by assumption. rewrite IH; [reflexivity|discriminate|assumption].
+Qed.
+
+Lemma comma_free_space : forall a, all_space a -> comma_free a.
+Proof.
+  unfold all_space, comma_free. induction a as [|c a IH]; intro H; [reflexivity|].
+  cbn [forallb] in *. apply andb_true_iff in H. destruct H as [H1 H2].
+  destruct (space_cases c H1) as [E|[E|[E|[E|[E|E]]]]]; subst; cbn; now apply IH.
+Qed.
+
+Lemma comma_free_app : forall a b, comma_free a -> comma_free b -> comma_free (a ++ b).
+Proof. unfold comma_free. intros. rewrite forallb_app. now rewrite H, H0. Qed.
+
+(** `r = sub, obj ,act` : whatever blanks surround the field names, AddDef computes the tokens
+    key_sub, key_obj, key_act. *)
+Theorem tokens_blank_insensitive : forall (xs : list (list ascii * list ascii * list ascii)) key,
+  xs <> [] ->
+  Forall (fun x => all_space (fst (fst x)) /\ all_space (snd x) /\
+                   trimmedb (snd (fst x)) = true /\ comma_free (snd (fst x))) xs ->
+  map (fun t => key ++ "_" :: trim t) (split_on "," (join_comma (map (fun x => fst (fst x) ++ snd (fst x) ++ snd x) xs)))
+  = map (fun x => key ++ "_" :: snd (fst x)) xs.
+Proof.
+  intros xs key N H. rewrite split_on_join.
+  - rewrite map_map. apply map_ext_in. intros [[a t] b] Hin. rewrite Forall_forall in H.
+    destruct (H _ Hin) as [Ha [Hb [Ht _]]]. cbn [fst snd] in *. now rewrite trim_pad.
+  - destruct xs; [congruence|discriminate].
+  - apply Forall_forall. intros y Hy. apply in_map_iff in Hy. destruct Hy as [[[a t] b] [E Hin]]. subst y.
+    rewrite Forall_forall in H. destruct (H _ Hin) as [Ha [Hb [_ Hc]]]. cbn [fst snd] in *.
+    apply comma_free_app; [now apply comma_free_space|]. apply comma_free_app; [assumption|now apply comma_free_space].
+Qed.
+
+(** ** The guards are necessary *)
+
+Definition L (x : string) : list ascii := list_ascii_of_string x.
+
+(* F34: the last continuation line has the shape "[...]" *)
+Definition f34_layout : ldoc :=
+  mkLdoc [mkLsec [] [] (L "matchers") []
+            [mkLdef [] [] (L "m") [SP] [SP] (L "r.obj == p.obj || r.obj in")
+                    [mkCont [SP] [] [SP; SP] (L "['data2', 'data3']")] []]] [] true.
+
+Lemma continuation_header_refuted :
+  exists l, wf_doc (erase l) = true /\ wf_layout_g false l = true /\ wf_layout l = false /\
+            parse (render l) <> Ok (cfg_doc (erase l)) /\
+            (* what is read instead: the value without its list, and no error *)
+            parse (render l) = Ok [(L "matchers", L "m", L "r.obj == p.obj || r.obj in")].
+Proof.
+  exists f34_layout. vm_compute. repeat split; try reflexivity. intro H. discriminate H.
+Qed.
+
+(* F35: a blank (or comment) line between the physical lines of a continued definition *)
+Definition f35_layout : ldoc :=
+  mkLdoc [mkLsec [] [] (L "matchers") []
+            [mkLdef [] [] (L "m") [SP] [SP] (L "r.sub == p.sub &&")
+                    [mkCont [SP] [] [SP; SP] (L "r.obj == p.obj")] []]] [] true.
+
+Definition insert_line (k : nat) (x : list ascii) (ls : list (list ascii)) := firstn k ls ++ x :: skipn k ls.
+
+Lemma line_inside_continuation_refuted :
+  exists l k x, wf_ldoc l = true /\ (x = [] \/ x = L "# note") /\
+    parse (unlines true (insert_line k x (doc_raws l))) <> parse (render l) /\
+    parse (unlines true (insert_line k x (doc_raws l)))
+    = Ok [(L "matchers", L "r.obj", L "= p.obj"); (L "matchers", L "m", L "r.sub == p.sub &&")].
+Proof.
+  exists f35_layout, 2, []. vm_compute. repeat split; try reflexivity; try (now left). intro H. discriminate H.
+Qed.
+
+(* two sections of the same name: their order matters *)
+Lemma duplicate_sections_order_refuted :
+  exists d d' : list (list ascii * list (list ascii * list ascii)),
+    Permutation d d' /\ wf_doc d = true /\ distinct_sections d = false /\
+    lookup (cfg_doc d) (L "s") (L "k") <> lookup (cfg_doc d') (L "s") (L "k").
+Proof.
+  exists [(L "s", [(L "k", L "1")]); (L "s", [(L "k", L "2")])],
+         [(L "s", [(L "k", L "2")]); (L "s", [(L "k", L "1")])].
+  split; [apply perm_swap|]. vm_compute. repeat split; try reflexivity. intro H. discriminate H.
+Qed.
+
+(* a value cannot contain a comment character: the reader cuts the line there *)
+Lemma comment_char_in_value_refuted :
+  exists l, wf_layout l = true /\ wf_doc (erase l) = false /\ parse (render l) <> Ok (cfg_doc (erase l)).
+Proof.
+  exists (canon [(L "matchers", [(L "m", L "r.obj == 'a#b'")])]).
+  vm_compute. repeat split; try reflexivity. intro H. discriminate H.
+Qed.
+
+(* F14 (repaired in /repo): had the reader handed the 4096-byte chunks of a long line to the line
+   machine as if they were lines, the layout theorem would be false. *)
+Fixpoint chunks (n k : nat) (l : list ascii) : list (list ascii) :=
+  match l with
+  | [] => [[]]
+  | c :: t => match k with
+              | 0 => [] :: cons_first c (chunks n (n - 1) t)
+              | S k' => cons_first c (chunks n k' t)
+              end
+  end.
+
+Definition parse_chunked (t : list ascii) : result (list (list ascii * list ascii * list ascii)) :=
+  match run (map trim (flat_map (chunks 4096 4096) (phys_lines t))) with
+  | Err e => Err e
+  | Ok w => Ok (map entry w)
+  end.
+
+Definition long_layout : ldoc :=
+  mkLdoc [mkLsec [] [] (L "matchers") []
+            [mkLdef [] [] (L "m") [SP] [SP] (L "g(r.sub, p.sub) &&")
+                    [mkCont (repeat SP 4100) [] [SP] (L "r.obj == p.obj")] []]] [] false.
+
+Lemma long_line_chunking_refuted :
+  exists l, wf_ldoc l = true /\ parse_chunked (render l) <> Ok (cfg_doc (erase l)) /\
+            parse (render l) = Ok (cfg_doc (erase l)).
+Proof.
+  exists long_layout. split; [vm_compute; reflexivity|]. split.
+  - vm_compute. intro H. discriminate H.
+  - apply layout_invariant. vm_compute. reflexivity.
+Qed.
+
+(** ** Entry points on Coq strings *)
+
+Theorem layout_invariant_string : forall l, wf_ldoc l = true ->
+  parse_string (string_of_list_ascii (render l)) = Ok (cfg_doc (erase l)).
+Proof.
+  intros l H. unfold parse_string. rewrite list_ascii_of_string_of_list_ascii. now apply layout_invariant.
+Qed.
+
+(* ========================================================================================== *)
+(** * 8. The loop bound of the model's loadSection always suffices *)
+
+From Coq Require Import DecimalNat FinFun.
+
+Lemma uint_digits_inj : forall u u', uint_digits u = uint_digits u' -> u = u'.
+Proof.
+  induction u as [|u IH|u IH|u IH|u IH|u IH|u IH|u IH|u IH|u IH|u IH]; intros u' H;
+    destruct u'; cbn [uint_digits] in H; try discriminate H; try reflexivity;
+    inversion H; f_equal; now apply IH.
+Qed.
+
+Lemma to_uint_nonnil : forall n, Nat.to_uint n <> Decimal.Nil.
+Proof.
+  intros n H. pose proof (Unsigned.to_of (Nat.to_uint n)) as E. rewrite Unsigned.of_to in E.
+  rewrite H in E. discriminate E.
+Qed.
+
+Lemma dec_nonempty : forall n, dec n <> [].
+Proof.
+  intros n H. unfold dec in H. pose proof (to_uint_nonnil n) as N. destruct (Nat.to_uint n); try discriminate H.
+  now apply N.
+Qed.
+
+Lemma dec_inj : forall n m, dec n = dec m -> n = m.
+Proof. intros n m H. apply Unsigned.to_uint_inj. now apply uint_digits_inj. Qed.
+
+Lemma key_of_inj : forall sec, Injective (key_of sec).
+Proof.
+  intros sec i j H. unfold key_of in H.
+  destruct (Nat.eqb i 1) eqn:Ei; destruct (Nat.eqb j 1) eqn:Ej.
+  - apply Nat.eqb_eq in Ei. apply Nat.eqb_eq in Ej. congruence.
+  - exfalso. rewrite <- (app_nil_r sec) in H at 1. apply app_inv_head in H. symmetry in H. now apply dec_nonempty in H.
+  - exfalso. rewrite <- (app_nil_r sec) in H at 2. apply app_inv_head in H. now apply dec_nonempty in H.
+  - apply app_inv_head in H. now apply dec_inj.
+Qed.
+
+Definition option_keys (c : list (list ascii * list ascii * list ascii)) : list (list ascii) :=
+  map (fun e => snd (fst e)) c.
+
+Lemma get_nonempty_in : forall c s k, get c s k <> [] -> In k (option_keys c).
+Proof.
+  intros c s k H. unfold get, lookup in H.
+  destruct (find (fun e => str_eqb (fst (fst e)) s && str_eqb (snd (fst e)) k) c) as [e|] eqn:F; [|congruence].
+  apply find_some in F. destruct F as [Hin Hb]. apply andb_true_iff in Hb. destruct Hb as [_ Hb].
+  apply str_eqb_eq in Hb. subst k. unfold option_keys. apply in_map_iff. now exists e.
+Qed.
+
+Lemma add_def_some : forall sec key v a, add_def sec key v = Some a -> v <> [].
+Proof. intros sec key v a H E. subst v. discriminate H. Qed.
+
+Lemma load_section_fuel : forall c sec f i e, load_section c sec f i = Err e ->
+  forall j, i <= j < i + f -> In (key_of sec j) (option_keys c).
+Proof.
+  intros c sec f. induction f as [|f IH]; intros i e H j Hj; [lia|].
+  cbn [load_section] in H.
+  destruct (add_def sec (key_of sec i) (get c (sec_name sec) (key_of sec i))) as [a|] eqn:A; [|discriminate].
+  destruct (load_section c sec f (S i)) as [r|e'] eqn:R; [discriminate|].
+  destruct (Nat.eq_dec j i) as [->|Hne].
+  - apply add_def_some in A. eapply get_nonempty_in; eassumption.
+  - apply (IH (S i) e' R). lia.
+Qed.
+
+(** loadSection visits keys sec, sec2, sec3, ... that are pairwise different; each visit needs its
+    own configuration entry, so more than |config| successful visits are impossible. *)
+Theorem fuel_suffices : forall c sec, exists a, load_section c sec (S (List.length c)) 1 = Ok a.
+Proof.
+  intros c sec. destruct (load_section c sec (S (List.length c)) 1) as [a|e] eqn:E; [eauto|exfalso].
+  pose proof (load_section_fuel _ _ _ _ _ E) as H.
+  assert (Hincl : incl (map (key_of sec) (seq 1 (S (List.length c)))) (option_keys c)).
+  { intros k Hk. apply in_map_iff in Hk. destruct Hk as [j [Ej Hj]]. subst k. apply in_seq in Hj. apply H. lia. }
+  assert (Hnd : NoDup (map (key_of sec) (seq 1 (S (List.length c))))).
+  { apply Injective_map_NoDup; [apply key_of_inj|apply seq_NoDup]. }
+  pose proof (NoDup_incl_length Hnd Hincl) as Hlen.
+  rewrite map_length, seq_length in Hlen. unfold option_keys in Hlen. rewrite map_length in Hlen. lia.
+Qed.
+
+Lemma load_secs_ok : forall c secs, exists m, load_secs c secs = Ok m.
+Proof.
+  intros c secs. induction secs as [|sec secs [m IH]]; [now exists []|].
+  cbn [load_secs]. destruct (fuel_suffices c sec) as [a Ha]. rewrite Ha, IH. eauto.
+Qed.
+
+(** Building a model from ANY text gives a model or one of the two errors of the Go code. *)
+Theorem load_total_strong : forall t,
+  match load_text t with
+  | Ok _ => exists c, parse t = Ok c
+  | Err (ENoEquals b) => parse t = Err (ENoEquals b) /\ no_equals_error (ENoEquals b)
+  | Err (EMissing ms) => ms <> [] /\ exists c, parse t = Ok c
+  | Err EFuel => False
+  end.
+Proof.
+  intro t. pose proof (load_total t) as H. destruct (load_text t) as [m|[b|ms|]] eqn:E; try exact H.
+  unfold load_text in E. destruct H as [c Hc]. rewrite Hc in E. unfold load_model in E.
+  destruct (load_secs_ok c all_secs) as [m Hm]. rewrite Hm in E. destruct (missing m); discriminate E.
 Qed.
